@@ -41,10 +41,29 @@ StrTag(p, s) == CASE p.st = "ia5" -> 22 [] p.st = "printable" -> 19 [] p.st = "n
                   [] p.st = "utf8" -> 12
                   [] OTHER -> IF AllPrintable(s) THEN 19 ELSE 12
 
-(* times *)
+(* times.  A time value is <<Y, M, D, h, m, s, offset seconds>>: the fields in the time's own zone.
+   Marshal writes those local fields (appendTimeCommon: t.Date(), t.Clock(), then Z or +-hhmm), and a
+   UTCTime can only carry a year of 1950..2049 in its two digits, which the decoder reads back in that
+   window.  Hence the rule the library implements and documents (outsideUTCRange: "year < 1950 ||
+   year >= 2050" of t.Year()) is about the year in the time's OWN zone; it is the only rule under
+   which tag and body agree and the instant survives the round trip (with the UTC year, 2050-01-01
+   01:00 +0500 would be written as UTCTime "500101010000+0500" and read back as 1950).  Enc therefore
+   takes t[1], the local year, for tag and body alike; no second reading is allowed. *)
 InUTCRange(t) == t[1] >= 1950 /\ t[1] < 2050
 TimeTag(p, t) == IF p.tt = "generalized" \/ ~InUTCRange(t) THEN 24 ELSE 23
 UTCEnc(t) == LET g == GTEnc(t) IN DDrop(g, 2)      \* two-digit year, rest identical
+
+\* the same instant with offset 0 ("times up to the second": equal instants)
+ShiftDay(y, m, d, k) ==
+  IF k = 0 THEN <<y, m, d>>
+  ELSE IF k = 1 THEN (IF d < DaysIn(y, m) THEN <<y, m, d + 1>> ELSE IF m < 12 THEN <<y, m + 1, 1>> ELSE <<y + 1, 1, 1>>)
+  ELSE (IF d > 1 THEN <<y, m, d - 1>> ELSE IF m > 1 THEN <<y, m - 1, DaysIn(y, m - 1)>> ELSE <<y - 1, 12, 31>>)
+ToUTC(t) ==
+  LET sod == (t[4] * 3600) + (t[5] * 60) + t[6] - t[7]          \* -14 h .. +38 h
+      k   == IF sod < 0 THEN -1 ELSE IF sod >= 86400 THEN 1 ELSE 0
+      s2  == sod - (k * 86400)
+      ymd == ShiftDay(t[1], t[2], t[3], k)
+  IN <<ymd[1], ymd[2], ymd[3], s2 \div 3600, (s2 % 3600) \div 60, s2 % 60, 0>>
 
 ----------------------------------------------------------------------------
 (* zero values (what `optional` without a default omits) *)
@@ -119,13 +138,17 @@ Enc(t, v) == EncField(t, v)
 
 (* Enc is injective on a set of values of one schema: the documented domain
    ("optional fields distinguishable").  SET OF values are equal up to order. *)
-RECURSIVE SameValue(_, _, _)
+RECURSIVE SameValue(_, _, _), SameBagV(_, _, _)
+DropAt(s, k) == SubSeq(s, 1, k - 1) \o SubSeq(s, k + 1, Len(s))
+\* the same members up to order (members compared with SameValue)
+SameBagV(t, a, b) ==
+  IF a = <<>> THEN b = <<>>
+  ELSE \E k \in 1..Len(b) : SameValue(t, a[1], b[k]) /\ SameBagV(t, Tail(a), DropAt(b, k))
 SameValue(t, a, b) ==
   CASE t.k = "struct" -> \A i \in 1..Len(a) : SameValue(t.sub[i], a[i], b[i])
     [] t.k = "setof" \/ (t.k = "seqof" /\ t.p.set) ->
-         Len(a) = Len(b) /\
-         SortEncs([i \in 1..Len(a) |-> EncField([t.sub[1] EXCEPT !.p = NoParams], a[i])]) =
-         SortEncs([i \in 1..Len(b) |-> EncField([t.sub[1] EXCEPT !.p = NoParams], b[i])])
+         Len(a) = Len(b) /\ SameBagV([t.sub[1] EXCEPT !.p = NoParams], a, b)
+    [] t.k = "time" -> ToUTC(a) = ToUTC(b)
     [] t.k = "seqof" -> Len(a) = Len(b) /\ \A i \in 1..Len(a) : SameValue([t.sub[1] EXCEPT !.p = NoParams], a[i], b[i])
     [] OTHER -> a = b
 EncInjective(t, vals) ==
